@@ -26,7 +26,8 @@ CONSTANTS MaxIds,      \* bound on the number of entity ids (pool size)
           EmitSeed,    \* selects which ones (deterministic checksum of the history)
           MaxOpen,     \* bound on simultaneously open queries
           ObsCat,      \* catalogue of observer specifications [ev, obs, with, without, excl]
-          EmitMode     \* "all": every transition (BFS); "last": only histories of full length (simulation)
+          EmitMode,    \* "all": every transition (BFS); "last": only histories of full length (simulation)
+          ResSet       \* resource types ("Res" in OpKinds): ResAdd / ResRemove / ResSet
 
 VARIABLES st, gw, ords, hist
 
@@ -308,7 +309,7 @@ OpShrink ==
 
 OpReset ==
     /\ "Reset" \in OpKinds /\ Room
-    /\ Len(st.pool) > 0
+    /\ (Len(st.pool) > 0 \/ DOMAIN st.res # {})
     /\ Step(BReset(st), DoReset(gw), <<>>,
             Entry("Reset", 0, {}, {}, EmptyFn, EmptyFn, 1, 0, NoFlt, "val"))
 
@@ -321,10 +322,34 @@ OpLoad ==
          Step(BLoad(base, d), DoLoad(gw), ords,
               Entry("Load", 0, {}, {}, EmptyFn, EmptyFn, 1, 0, NoFlt, mode))
 
+\* resources (C18 / C16): a partial map, cleared by Reset; independent of the world lock
+OpResAdd ==
+    /\ "Res" \in OpKinds /\ Room
+    /\ \E t \in ResSet :
+         /\ PreResAdd(gw, t)
+         /\ LET v == 1 IN
+            Step(BResAdd(st, t, v), DoResAdd(gw, t, v), ords,
+                 [Entry("ResAdd", 0, {}, {}, Single(t, v), EmptyFn, 1, 0, NoFlt, "val") EXCEPT !.ev = t])
+
+OpResRemove ==
+    /\ "Res" \in OpKinds /\ Room
+    /\ \E t \in ResSet :
+         /\ PreResRemove(gw, t)
+         /\ Step(BResRemove(st, t), DoResRemove(gw, t), ords,
+                 [Entry("ResRemove", 0, {}, {}, EmptyFn, EmptyFn, 1, 0, NoFlt, "val") EXCEPT !.ev = t])
+
+OpResSet ==
+    /\ "Res" \in OpKinds /\ Room
+    /\ \E t \in ResSet :
+         /\ PreResSet(gw, t) /\ gw.res[t] = 1
+         /\ Step(BResSet(st, t, 2), DoResSet(gw, t, 2), ords,
+                 [Entry("ResSet", 0, {}, {}, Single(t, 2), EmptyFn, 1, 0, NoFlt, "val") EXCEPT !.ev = t])
+
 Next == \/ OpNew \/ OpNewNoInit \/ OpNewBatch \/ OpCopy \/ OpAdd \/ OpAddNoInit \/ OpRemove \/ OpExchange \/ OpSet \/ OpSetRel \/ OpKill
         \/ OpAddBatch \/ OpExchangeBatch \/ OpRemoveBatch \/ OpSetRelBatch \/ OpKillBatch
         \/ OpRegF \/ OpUnregF \/ OpShrink \/ OpReset \/ OpQOpen \/ OpQNext \/ OpQClose
         \/ OpRegO \/ OpUnregO \/ OpEmit \/ OpDumpLoad \/ OpLoad
+        \/ OpResAdd \/ OpResRemove \/ OpResSet
 
 Spec == Init /\ [][Next]_vars
 
@@ -350,6 +375,7 @@ Bounded == Len(st.tabs) <= MaxTabs
 (***************************************************************************)
 NoPanic   == Ok(st)                       \* C04: a valid call never fails
 Refines   == Ok(st) => AbsEnt(st) = gw.ent \* C01: layer B represents exactly the layer-A world
+BRes      == Ok(st) => st.res = gw.res      \* C18/C16: the resource slots represent exactly the layer-A resources
 AOK       == WorldTypeOK(gw) /\ TargetsValid(gw) /\ AliveIdsDistinct(gw)
 BIndexOK  == Ok(st) => IndexOK(st)
 BFreeList == Ok(st) => FreeListOK(st)
